@@ -906,7 +906,7 @@ impl<'a> Gen<'a> {
                 // make_tmp() { p = malloc(..); free(p); return p; } called from several sites, the
                 // returned pointer is used after each call
                 let target = self.helper + 0x400;
-                for _ in 0..self.r.range(2, 3) {
+                for _ in 0..self.r.range(1, 2) {
                     let next = slots();
                     b = match self.end_with_call(b, CallTarget::Func(target), next, out) { Some(x) => x, None => return None };
                     if self.r.chance(70) {
@@ -1479,7 +1479,12 @@ pub fn generate(seed: u64) -> Workload {
     let mut per_func: Vec<Vec<&str>> = vec![Vec::new(); nfuncs];
     for _ in 0..ngad {
         let gd = *r.pick(GADGETS);
-        per_func[r.below(nfuncs as u64) as usize].push(gd);
+        let f = r.below(nfuncs as u64) as usize;
+        per_func[f].push(gd);
+        if gd == "dangling_return" && nfuncs > 1 {
+            // the same helper is also used by another function
+            per_func[(f + 1 + r.below(nfuncs as u64 - 1) as usize) % nfuncs].push(gd);
+        }
     }
     let mut subs = Vec::new();
     for fi in 0..nfuncs {
